@@ -1,9 +1,10 @@
 (* Executable model of the code as written (definitions only):
-     boltons/strutils.py   _line_ending_re, iter_splitlines
+     boltons/strutils.py   _line_ending_re, iter_splitlines, indent (default key)
      boltons/jsonutils.py  reverse_iter_lines, JSONLIterator.__init__/next
    Python primitives used by that code and not modelled further (trusted, DESIGN 2.6; each
    is compared with the real one on every run): re alternation of literals + finditer,
-   bytes.splitlines, slicing, file seek/read/iteration, bytes/str.lstrip, UTF-8, json.loads. *)
+   bytes.splitlines, slicing, file seek/read/iteration, bytes/str.lstrip, UTF-8 and single-byte
+   codecs, json.loads. *)
 From Boltons Require Import Lib.Prelude Lib.C19_Utf8 Spec.C19_Spec.
 Open Scope N_scope.
 
